@@ -581,6 +581,15 @@ impl Ctx {
                     }
                 }
             }
+            ["fqd", fs, items @ ..] => {
+                let fs: Vec<u32> = fs.split(',').map(|x| x.parse::<u32>().ok()).collect::<Option<Vec<u32>>>()?;
+                let mut its: Vec<(usize, Vec<u8>)> = vec![];
+                for it in items {
+                    let (c, h) = it.split_once(':')?;
+                    its.push((c.parse().ok()?, parse_hex(h)?));
+                }
+                self.fqd(&fs, &its, o)
+            }
             ["rfq", fs, h] => {
                 let fs: Vec<u32> = fs.split(',').map(|x| x.parse::<u32>().ok()).collect::<Option<Vec<u32>>>()?;
                 let xs = parse_hex(h)?;
@@ -605,6 +614,74 @@ impl Ctx {
             }
             _ => return None,
         })
+    }
+
+    /// Decoding with a table built from a frequency vector: many streams per construction.  The
+    /// oracle is the property's "whenever the reference decodes an input successfully this one
+    /// returns the same bytes" (reference built from the same frequencies), the buffer bound, and
+    /// capacity monotonicity.
+    fn fqd(&mut self, fs: &[u32], items: &[(usize, Vec<u8>)], o: &mut Oracle) -> String {
+        let h = match catch(|| Huffman::from_frequencies(fs)) {
+            Ok(h) => h,
+            Err(msg) => {
+                if fs.len() == 256 {
+                    o.count("fq_panic");
+                    let tag = if msg.contains("CapacityError") || msg.contains("insufficient capacity") {
+                        "C07/from-frequencies-panic"
+                    } else {
+                        "C07/from-frequencies-other-panic"
+                    };
+                    o.fail(tag, format!("from_frequencies panicked: {}", msg));
+                }
+                return "panic".to_string();
+            }
+        };
+        let mag: u64 = fs.iter().map(|&f| (f as i32 as i64).unsigned_abs()).sum::<u64>() + 1;
+        let signed = fs.iter().any(|&f| f >= (1u32 << 31));
+        let refh = if mag < (1u64 << 31) { Some(RefHuffman::from_frequencies(fs)) } else { None };
+        let mut out: Vec<String> = vec![];
+        for (cap, xs) in items {
+            let d = dec(&h, xs, *cap, FQ_OVR, o);
+            o.count("fqd_decodes");
+            match &d {
+                Dec::Invalid => o.fail("C07/decompress-invalid-variant", format!("fq table, cap={} input={}", cap, short(xs))),
+                Dec::Ok(v) => {
+                    o.count("fqd_ok");
+                    // the same bytes at exactly the needed capacity, capacity error one below
+                    let r = dec(&h, xs, v.len(), FQ_OVR, o);
+                    let mut good = r == d;
+                    if !v.is_empty() {
+                        good = good && dec(&h, xs, v.len() - 1, FQ_OVR, o) == Dec::Capacity;
+                    }
+                    if !good {
+                        o.fail("C07/fq-capacity-monotone", format!("cap={} input={} result={}", cap, short(xs), dec_show(&d)));
+                    }
+                }
+                Dec::Capacity => {}
+            }
+            if let Some(refh) = &refh {
+                let rr = ref_dec(refh, xs, *cap);
+                if let RDec::Ok(b) = &rr {
+                    o.count("fqd_reference_ok");
+                    if !matches!(&d, Dec::Ok(v) if v == b) {
+                        o.fail(
+                            if signed { "C07/fq-reference-signed-frequency" } else { "C07/fq-reference-agreement" },
+                            format!("cap={} input={} reference=ok:{} rust={}", cap, short(xs), short(b), dec_show(&d)),
+                        );
+                    }
+                }
+            }
+            out.push(match &d {
+                Dec::Ok(v) => format!("ok:{}", to_hex(v)),
+                Dec::Capacity => "capacity".to_string(),
+                Dec::Invalid => "invalid".to_string(),
+            });
+        }
+        if out.is_empty() {
+            "-".to_string()
+        } else {
+            out.join(" ")
+        }
     }
 
     fn fq(&mut self, fs: &[u32], cap: usize, xs: &[u8], o: &mut Oracle) -> String {
@@ -940,6 +1017,24 @@ fn gen_freqs(rng: &mut Rng, kind: u64, shipped: &[u32]) -> Vec<u32> {
     }
 }
 
+/// EOF (frequency 1) at the bottom of a chain: `k` symbols with frequencies 2, 4, 8, …, 2^k, all others
+/// equal and larger.  EOF's code then has about `k + 8` bits and ends in about `k` zero bits.
+fn gen_chain_freqs(rng: &mut Rng) -> Vec<u32> {
+    let k = 6 + rng.below(11) as usize; // 6..16: the longest codes reach 14..24 bits, sometimes 25 (D16)
+    let large = (1u32 << (k + 1)) + rng.below(1000) as u32;
+    let mut v: Vec<u32> = (0..256usize).map(|i| if i < k { 2u32 << i } else { large }).collect();
+    if rng.chance(1, 3) {
+        // perturb the chain a little: still a chain, different tie-breaking
+        for i in 0..k {
+            v[i] += rng.below(2) as u32;
+        }
+    }
+    if rng.chance(2, 3) {
+        shuffle(rng, &mut v);
+    }
+    v
+}
+
 fn gen_zeros_among_large(rng: &mut Rng, z: usize) -> Vec<u32> {
     let large = *rng.pick(&[1000u32, 1_000_000, 8_000_000]);
     let mut v: Vec<u32> = (0..256usize).map(|i| if i < z { 0 } else { large }).collect();
@@ -1136,6 +1231,66 @@ impl D {
         // 5. tables from frequency vectors (last: the model side is slow on these)
         let n = if thorough { 600 } else if search { 30 } else { 60 };
         let mut emitted = 0usize;
+        // decoding with tables built from frequency vectors: valid streams, every truncation, zero-byte
+        // extensions, capacities 0..L+2 — against the reference built from the same frequencies and
+        // the model.  Shapes: EOF (frequency 1) at the bottom of a chain of doubling frequencies, so
+        // that its code is long and ends in many zero bits (a truncated stream then still decodes by
+        // zero extension, also in the reference); long codes (17..24 bits) in general.
+        {
+            let n_fqd = if thorough { 400 } else if search { 12 } else { 48 };
+            for k in 0..n_fqd {
+                let fs: Vec<u32> = match k % 6 {
+                    0 | 1 | 2 => gen_chain_freqs(&mut rng),
+                    3 => gen_freqs(&mut rng, 10, &shipped),
+                    4 => gen_freqs(&mut rng, 4, &shipped),
+                    _ => gen_freqs(&mut rng, 1, &shipped),
+                };
+                let mut items: Vec<String> = vec![];
+                if let Ok(h) = catch(|| Huffman::from_frequencies(&fs)) {
+                    // symbols with the longest codes, to put them into the streams
+                    let reprs = repr_strings(&h);
+                    let mut by_len: Vec<usize> = (0..256).collect();
+                    by_len.sort_by_key(|&i| std::cmp::Reverse(reprs[i].len()));
+                    for round in 0..4 {
+                        let n = if round == 0 { 0 } else { rng.below(5) as usize };
+                        let xs: Vec<u8> = (0..n)
+                            .map(|_| if rng.chance(1, 2) { by_len[rng.below(6) as usize] as u8 } else { rng.next() as u8 })
+                            .collect();
+                        let stream = comp(&h, &xs, rng.chance(1, 2));
+                        let l = xs.len();
+                        // the full stream at every capacity
+                        for cap in 0..=l + 2 {
+                            items.push(format!("{}:{}", cap, to_hex(&stream)));
+                        }
+                        // every truncation
+                        for cut in 0..stream.len() {
+                            for cap in [l, l + 2, rng.below(l as u64 + 3) as usize] {
+                                items.push(format!("{}:{}", cap, to_hex(&stream[..cut])));
+                            }
+                        }
+                        // zero-byte extensions and one garbage extension
+                        for z in 1..=3usize {
+                            let mut e = stream.clone();
+                            e.extend(std::iter::repeat(0u8).take(z));
+                            items.push(format!("{}:{}", l, to_hex(&e)));
+                        }
+                        let mut e = stream.clone();
+                        e.extend(rng.bytes(2));
+                        items.push(format!("{}:{}", l + 1, to_hex(&e)));
+                    }
+                    // the empty stream and pure zero bytes (EOF's code may be all zeros)
+                    for z in 0..4usize {
+                        for cap in [0usize, 1, 5] {
+                            items.push(format!("{}:{}", cap, to_hex(&vec![0u8; z])));
+                        }
+                    }
+                } else {
+                    items.push("3:00".to_string());
+                }
+                let line: Vec<String> = fs.iter().map(|x| x.to_string()).collect();
+                writeln!(w, "fqd {} {}", line.join(","), items.join(" ")).unwrap();
+            }
+        }
         // the reference's own tree construction (model of ConstructTree/Setbits_r vs. the real C++):
         // shapes whose reference tree stays shallow
         {
